@@ -849,9 +849,12 @@ func (e *Enc) encPanic(ins *ssa.Panic, st *State) {
 	o := e.oblige("safe:panic-type", fmt.Sprintf("@%d", n), "", "true", "true", ins.Pos(), "")
 	o.Static = true
 	var dyn types.Type
-	if mi, ok := ins.X.(*ssa.MakeInterface); ok {
-		dyn = mi.X.Type()
-	} else {
+	switch x := ins.X.(type) {
+	case *ssa.MakeInterface:
+		dyn = x.X.Type()
+	case *ssa.ChangeInterface:
+		dyn = x.X.Type()
+	default:
 		dyn = ins.X.Type()
 	}
 	errT := types.Universe.Lookup("error").Type().Underlying().(*types.Interface)
